@@ -15,7 +15,7 @@ namespace {
 const long kBuilds[] = {0, 1, 2, 3, 4, 5, 9999};
 const long kLevels[] = {0, 1, 2, 3, 4, 5, 6, 7, 8, 9, 10, 9998, 9999, 10000, 4294967295L};
 
-enum Kind { DSTMT, IFSTMT, DPRINTFN, ASSERT_T, ASSERT_F, ASSERT_RT, ASSERT_RF, NOTREACHED_R, REQ_T, REQ_F, REQ_RT, REQ_RF, P_DPRINTF, P_WARN, P_ERROR, P_FATAL };
+enum Kind { DSTMT, IFSTMT, DPRINTFN, PLAIN_D, PLAIN_DPRINTFN, P_DPRINTF_PLAIN, ASSERT_T, ASSERT_F, ASSERT_RT, ASSERT_RF, NOTREACHED_R, REQ_T, REQ_F, REQ_RT, REQ_RF, P_DPRINTF, P_WARN, P_ERROR, P_FATAL };
 struct Stmt { Kind kind; long level; const char *macro; const char *func; };
 const long NEVER = -1;
 const Stmt kStmts[] = {
@@ -30,7 +30,8 @@ const Stmt kStmts[] = {
     {ASSERT_RF, 0, "ASSERT_RVAL", "s_assert_rval_false"}, {NOTREACHED_R, 0, "ASSERT_NOTREACHED_RVAL", "s_notreached_rval"},
     {REQ_T, 0, "REQUIRE", "v_require_true"}, {REQ_F, 0, "REQUIRE", "v_require_false"}, {REQ_RT, 0, "REQUIRE_RVAL", "s_require_rval_true"}, {REQ_RF, 0, "REQUIRE_RVAL", "s_require_rval_false"},
     {P_DPRINTF, 0, "libast_dprintf", "s_prim_dprintf"}, {P_WARN, 0, "libast_print_warning", "s_prim_warning"}, {P_ERROR, 0, "libast_print_error", "s_prim_error"},
-    {P_FATAL, 0, "libast_fatal_error", "s_prim_fatal"}};
+    {P_FATAL, 0, "libast_fatal_error", "s_prim_fatal"},
+    {PLAIN_D, 1, "D_OPTIONS", "s_d_plain"}, {PLAIN_DPRINTFN, 3, "DPRINTF3", "s_dprintf3_plain"}, {P_DPRINTF_PLAIN, 0, "libast_dprintf", "s_prim_dprintf_plain"}};
 const int NSTMT = sizeof(kStmts) / sizeof(kStmts[0]);
 
 std::string unhex(const std::string &h) {
@@ -95,6 +96,20 @@ struct Model {
             ctx.label(cell + (S ? ":on-silent" : ":on"));
             break;
         }
+        case PLAIN_D: case PLAIN_DPRINTFN: {   // the same gates for a message without conversions (no argument to count)
+            bool active = s.kind == PLAIN_D ? (D >= s.level && R >= s.level) : (D >= 1 && R >= s.level);
+            if (status != 0 || flow != 1) bad("expected a normal return");
+            if (!active) { if (!out.empty()) bad("expected no output"); ctx.label(cell + ":plain-off"); break; }
+            debug_line(std::string("plain-") + s.macro + "\n");
+            ctx.label(cell + (S ? ":plain-on-silent" : ":plain-on"));
+            break;
+        }
+        case P_DPRINTF_PLAIN:
+            if (status != 0 || flow != 1) bad("expected a normal return");
+            if (S) { if (!out.empty()) bad("output although silenced"); if (ret != 0) bad("silenced call reported characters written"); }
+            else { if (out != "plain-message\n") bad("expected 'plain-message\\n'"); if (ret != 14) bad("wrong character count"); }
+            ctx.label(cell + (S ? ":plain-silent" : ":plain-prints"));
+            break;
         case IFSTMT: { bool active = D >= s.level && R >= s.level; quiet_run(active ? 1 : 0); ctx.label(cell + (active ? ":on" : ":off")); break; }
         case ASSERT_T: case ASSERT_RT: quiet_run(D >= 1 ? 1 : 0); if ((s.kind == ASSERT_RT) && ret != 1) bad("wrong return value"); ctx.label(cell + ":holds"); break;
         case ASSERT_F: case ASSERT_RF: case NOTREACHED_R: {
